@@ -116,7 +116,13 @@ Definition start (e : env) (s : st) (tag : bytes) (a : attrs) : res :=
     | Some _ => Done s1 []
     | None =>
       match cur s1 with
-      | [] => Raise EAttr []
+      | [] =>
+          (* `if self._root is None: raise SAXFilterXMLNotFoundError(None)`: no reply element has been seen (the
+             document element is a <notification>, ...), nothing to filter, the message is DOM parsed.  _cur and _root
+             are None initially, assigned together at the reply's start tag and _root is never reset, so "_root is None"
+             implies "_cur is None" (cur = []): Proofs/SaxRootlessProofs.v rootless_inv.  _root set and _cur None
+             (popped past the root) is the AttributeError of `self._cur.tag` / `self._cur.find`. *)
+          match roottag s1 with None => Raise ESwitch [] | Some _ => Raise EAttr [] end
       | c :: _ =>
         let nd : option (list ftree) :=                  (* None = not found *)
           if Nat.eqb (length (cur s1)) (rootdepth s1) && beq (ftag c) tag then Some (cur s1)
